@@ -141,9 +141,28 @@ PROPERTIES["C16"] = {
     "assumptions": ["sampling, not enumeration", "bounds: <=5 distinct elements, <=10 operations"],
 }
 
+PROPERTIES["C19"] = {
+    "machine": "json_sim",
+    "engine": "Sim-J",
+    "level": "fault_enumeration",
+    "level_text": "A writer (to_json) stores documents as JSON text, a fault injector corrupts type tags at rest and a reader (from_json) loads them through a simulated import system (answers from sys.modules only, reproduces importlib's ValueError/TypeError/ModuleNotFoundError for degenerate names, can fail an existing module with ImportError). The quick tier enumerates the fault matrix exhaustively - every fault kind (key deleted; every JSON type and the empty string as value; missing/leading/trailing/double dots; unknown and failing modules; missing attribute, function, module, constant, TypeVar, typing alias, plain class, abstract serialiser, serialiser without deserialiser, the base class itself; every other real class; every truncation and two single-character substitutions at every position of the real tag) at every tag position of a fixed corpus of six documents - and then runs seeded multi-fault sequences over generated documents. An independent resolver classifies each corrupted tag: unresolvable -> a JSONSerializationError subclass from the admissible set of that fault class and never a returned object; resolvable to class K -> an instance of exactly K or K's own parsing error.",
+    "design_ref": "DESIGN.md section 5, C19",
+    "level_note": "Trusted: the simulated import system and the resolver (both small, both in sim/machines/json_sim.py). A tag naming a serialiser class without _from_json (incl. SubclassJSONSerializer itself) is left open. Nothing is ever really imported: importlib.import_module is patched process-wide and a deny-all finder is the only entry of sys.meta_path during reads.",
+    "technique": "deterministic simulation with enumerated fault injection: at-rest corruption of stored type tags and simulated import failures, classified by an independent reference resolver",
+    "tiers": {
+        "quick": {"runs": 40000, "wall_s": 150, "triage_s": 60},
+        "thorough": {"runs": 600000, "wall_s": 3000, "triage_s": 300},
+    },
+    "cfg": {},
+    "rule": "run indices below the matrix size enumerate (document, tag position, fault) exhaustively; higher indices draw a generated document (nesting depth <=3) and 1-3 faults at distinct tag positions from splitmix64(VERIF_SEED, property, index). Non-trivial: at least one fault was applied to an existing tag position. Distinct: hash of (document, faults, failing modules).",
+    "components": ["real: to_json, from_json, SubclassJSONSerializer.from_json tag resolution, JSONSerializableTypeRegistry, the UUID serialiser, json.dumps/json.loads", "stub: serialiser classes Shape/Poly/Tri/Group, registered foreign type, non-class attributes (sim/worlds/jworld.py); simulated import system and deny-all finder; the document store (a JSON string)"],
+    "assumptions": ["the matrix is exhaustive for the fixed corpus and the listed fault kinds, not for all strings", "multi-fault sequences use unresolvable faults only, any of their admissible errors is accepted"],
+}
+
 # <<NEW-PROPERTIES>>
 
 ENGINES = {
+    "Sim-J": "JSON store simulator: writer -> stored JSON text -> at-rest tag corruption -> reader, behind a simulated import system; enumerated fault matrix plus seeded fault sequences; fork-per-run",
     "Sim-O": "ontology assertion simulator: facts are messages; the scheduler reorders, duplicates and routes them through write paths, with gc/sweep events; oracle = reference closure from a plain ontology table; fork-per-run",
     "Sim-L": "lifecycle simulator: cyclic GC disabled, reference drops / gc.collect / sweep / graph clear are scheduled ops on a harness-owned handle table, weak-reference census as ground truth; fork-per-run",
     "Sim-E": "evaluation simulator: the generators returned by evaluate() are the tasks; a seeded op list decides every next(), close(), reference drop and gc; fork-per-run from a pristine template process",
@@ -171,5 +190,5 @@ NOT_APPLICABLE = {
     "C11": "pattern matching vs explicit query: pure in (pattern, data); " + _PURE,
     "C12": "predicates/symbolic functions, concrete vs symbolic call: pure in (signature, call shape, binding); " + _PURE,
     "C18": "JSON round trip: pure in the value; " + _PURE,
-    "C17": _WIP, "C19": _WIP,
+    "C17": _WIP,
 }
